@@ -13,12 +13,17 @@ Inductive tev :=
 | TEnter (typ from to : N) (input : bytes) (gas : N) (value : option N)
 | TExit (out : bytes) (used : N) (err : option string)
 | TAspEnter (jp from to aspect : N) (input : bytes) (gas : N) (value : option N)
-| TAspExit (jp : N) (gas : N) (ret : bytes) (err : option string).
+| TAspExit (jp : N) (gas : N) (ret : bytes) (err : option string)
+| TLog (addr : N) (topics : list N) (data : bytes)     (* CaptureState of a LOGn instruction, with withLog and not onlyTopCall *)
+| TClearLogs.                                            (* CaptureTxEnd with withLog: clearFailedLogs *)
 
 (** ** result frames (callFrame / aspectCallFrame; revertReason and logs are not modelled) *)
+(** an event log captured with withLog: (emitting address, topics, data) *)
+Definition clog : Type := N * list N * bytes.
+
 Inductive cframe :=
   CF (typ from : N) (to : option N) (input : bytes) (gas used : N) (output : bytes) (err : string)
-     (calls : list cframe) (jps : list aframe) (value : option N)
+     (calls : list cframe) (jps : list aframe) (value : option N) (logs : list clog)
 with aframe :=
   AF (jp aspect from to : N) (input : bytes) (gas used : N) (output : bytes) (err : string)
      (calls : list cframe) (value : N) (exited : bool).
@@ -32,19 +37,19 @@ Definition revert_text : string := "execution reverted".
 (** an open frame on the tracer's call stack: the frame so far + the marker of the running Aspect *)
 Record oframe := { o_frame : cframe; o_marker : N }.
 
-Definition empty_frame : cframe := CF 0 0 None [] 0 0 [] ""%string [] [] None.
+Definition empty_frame : cframe := CF 0 0 None [] 0 0 [] ""%string [] [] None [].
 
 (** callFrame.processOutput *)
 Definition process_output (f : cframe) (output : bytes) (err : option string) : cframe :=
   match f with
-  | CF typ from to input gas used _ e calls jps value =>
+  | CF typ from to input gas used _ e calls jps value lg =>
     match err with
-    | None => CF typ from to input gas used output e calls jps value
+    | None => CF typ from to input gas used output e calls jps value lg
     | Some t =>
       let to' := if (typ =? op_create) || (typ =? op_create2) then None else to in
       if String.eqb t revert_text && negb (match output with [] => true | _ => false end)
-      then CF typ from to' input gas used output t calls jps value
-      else CF typ from to' input gas used [] t calls jps value
+      then CF typ from to' input gas used output t calls jps value lg
+      else CF typ from to' input gas used [] t calls jps value lg
     end
   end.
 
@@ -70,15 +75,33 @@ Definition af_finish (a : aframe) (gleft : N) (ret : bytes) (err : option string
     process_output_a (AF jp asp from to input gas (sub64 gas gleft) out e calls value true) ret err end.
 
 Definition cf_add_call (f : cframe) (c : cframe) : cframe :=
-  match f with CF typ from to input gas used out e calls jps value => CF typ from to input gas used out e (calls ++ [c]) jps value end.
+  match f with CF typ from to input gas used out e calls jps value lg => CF typ from to input gas used out e (calls ++ [c]) jps value lg end.
 Definition cf_add_jp (f : cframe) (a : aframe) : cframe :=
-  match f with CF typ from to input gas used out e calls jps value => CF typ from to input gas used out e calls (jps ++ [a]) value end.
-Definition cf_jps (f : cframe) : list aframe := match f with CF _ _ _ _ _ _ _ _ _ jps _ => jps end.
-Definition cf_calls (f : cframe) : list cframe := match f with CF _ _ _ _ _ _ _ _ calls _ _ => calls end.
+  match f with CF typ from to input gas used out e calls jps value lg => CF typ from to input gas used out e calls (jps ++ [a]) value lg end.
+Definition cf_jps (f : cframe) : list aframe := match f with CF _ _ _ _ _ _ _ _ _ jps _ _ => jps end.
+Definition cf_calls (f : cframe) : list cframe := match f with CF _ _ _ _ _ _ _ _ calls _ _ _ => calls end.
 Definition cf_set_jps (f : cframe) (j : list aframe) : cframe :=
-  match f with CF typ from to input gas used out e calls _ value => CF typ from to input gas used out e calls j value end.
+  match f with CF typ from to input gas used out e calls _ value lg => CF typ from to input gas used out e calls j value lg end.
 Definition cf_set_used (f : cframe) (u : N) : cframe :=
-  match f with CF typ from to input gas _ out e calls jps value => CF typ from to input gas u out e calls jps value end.
+  match f with CF typ from to input gas _ out e calls jps value lg => CF typ from to input gas u out e calls jps value lg end.
+
+Definition cf_add_log (f : cframe) (l : clog) : cframe :=
+  match f with CF typ from to input gas used out e calls jps value lg => CF typ from to input gas used out e calls jps value (lg ++ [l]) end.
+Definition cf_logs (f : cframe) : list clog := match f with CF _ _ _ _ _ _ _ _ _ _ _ lg => lg end.
+Definition cf_err (f : cframe) : string := match f with CF _ _ _ _ _ _ _ e _ _ _ _ => e end.
+
+(** clearFailedLogs: the logs of a failed frame, of everything it called and of the calls its Aspects made are dropped *)
+Fixpoint clear_c (f : cframe) (parent_failed : bool) : cframe :=
+  match f with
+  | CF typ from to input gas used out e calls jps value lg =>
+    let failed := negb (String.eqb e "") || parent_failed in
+    CF typ from to input gas used out e (map (fun c => clear_c c failed) calls) (map (fun a => clear_a a failed) jps) value
+       (if failed then [] else lg)
+  end
+with clear_a (a : aframe) (failed : bool) : aframe :=
+  match a with
+  | AF jp asp from to input gas used out e calls value dn => AF jp asp from to input gas used out e (map (fun c => clear_c c failed) calls) value dn
+  end.
 
 (** update the LAST Aspect frame of the given join point that has not exited yet (CaptureAspectExit, after the fixes) *)
 Fixpoint update_last_jp (jps : list aframe) (jp : N) (f : aframe -> aframe) : list aframe * bool :=
@@ -127,14 +150,14 @@ Section Config.
       Ok {| t_stack := upd_bottom (t_stack s) (fun f => cf_set_used f (sub64 (t_gaslimit s) rest)); t_gaslimit := t_gaslimit s; t_started := t_started s |}
     | TStart from to create input gas value =>
       Ok {| t_stack := upd_bottom (t_stack s) (fun f =>
-              match f with CF _ _ _ _ _ used out e calls jps _ =>
-                CF (if create then op_create else op_call) from (Some to) input (t_gaslimit s) used out e calls jps (Some value) end);
+              match f with CF _ _ _ _ _ used out e calls jps _ lg =>
+                CF (if create then op_create else op_call) from (Some to) input (t_gaslimit s) used out e calls jps (Some value) lg end);
             t_gaslimit := t_gaslimit s; t_started := true |}
     | TEnd out used err =>
       Ok {| t_stack := upd_bottom (t_stack s) (fun f => process_output f out err); t_gaslimit := t_gaslimit s; t_started := t_started s |}
     | TEnter typ from to input gas value =>
       if only_top then Ok s else
-      Ok {| t_stack := {| o_frame := CF typ from (Some to) input gas 0 [] ""%string [] [] value; o_marker := 0 |} :: t_stack s;
+      Ok {| t_stack := {| o_frame := CF typ from (Some to) input gas 0 [] ""%string [] [] value []; o_marker := 0 |} :: t_stack s;
             t_gaslimit := t_gaslimit s; t_started := t_started s |}
     | TExit out used err =>
       if only_top then Ok s else
@@ -160,6 +183,17 @@ Section Config.
         Ok {| t_stack := {| o_frame := cf_set_jps (o_frame top) j; o_marker := 0 |} :: rest; t_gaslimit := t_gaslimit s; t_started := t_started s |}
       | [] => Panic "index out of range [-1]"
       end
+    | TLog addr topics data =>
+      (* CaptureState: with onlyTopCall the guard `depth > 0` holds in every frame, so nothing is ever collected *)
+      if only_top then Ok s else
+      match t_stack s with
+      | top :: rest =>
+        Ok {| t_stack := {| o_frame := cf_add_log (o_frame top) (addr, topics, data); o_marker := o_marker top |} :: rest;
+              t_gaslimit := t_gaslimit s; t_started := t_started s |}
+      | [] => Panic "index out of range [-1]"
+      end
+    | TClearLogs =>
+      Ok {| t_stack := upd_bottom (t_stack s) (fun f => clear_c f false); t_gaslimit := t_gaslimit s; t_started := t_started s |}
     end.
 
   Fixpoint ct_run (s : tstate) (es : list tev) : res tstate :=
@@ -206,7 +240,7 @@ Fixpoint frame_c (t : ctree) : cframe :=
   match t with
   | CT i pre body post =>
     process_output (CF (ci_typ i) (ci_from i) (Some (ci_to i)) (ci_input i) (ci_gas i) (ci_used i) [] ""%string
-                       (map frame_c body) (map frame_a pre ++ map frame_a post) (ci_value i))
+                       (map frame_c body) (map frame_a pre ++ map frame_a post) (ci_value i) [])
                    (ci_out i) (ci_err i)
   end
 with frame_a (t : atree) : aframe :=
@@ -252,7 +286,7 @@ Definition frame_tx (x : txtree) : cframe :=
     (CF (if x_create x then op_create else op_call) (x_from x) (Some (x_to x)) (x_input x) (x_gaslimit x) (sub64 (x_gaslimit x) (x_rest x)) [] ""%string
         (map frame_c (x_body x))
         (map frame_a (x_pretx x) ++ map frame_a (x_pre x) ++ map frame_a (x_post x) ++ map frame_a (x_posttx x))
-        (Some (x_value x)))
+        (Some (x_value x)) [])
     (x_out x) (x_err x).
 
 Definition wf_tx (x : txtree) : bool :=
@@ -264,7 +298,7 @@ Definition frame_tx_top (x : txtree) : cframe :=
         []
         (flat_map aspects_a (x_pretx x) ++ flat_map aspects_a (x_pre x) ++ flat_map aspects_c (x_body x) ++ flat_map aspects_a (x_post x)
          ++ flat_map aspects_a (x_posttx x))
-        (Some (x_value x)))
+        (Some (x_value x)) [])
     (x_out x) (x_err x).
 
 (** ** flatCallTracer: the wrapped callTracer + the precompile filter + flatFromNested *)
@@ -272,7 +306,7 @@ Definition af_calls (a : aframe) : list cframe := match a with AF _ _ _ _ _ _ _ 
 Definition af_set_calls (a : aframe) (c : list cframe) : aframe :=
   match a with AF jp asp from to input gas used out e _ value dn => AF jp asp from to input gas used out e c value dn end.
 Definition cf_set_calls (f : cframe) (c : list cframe) : cframe :=
-  match f with CF typ from to input gas used out e _ jps value => CF typ from to input gas used out e c jps value end.
+  match f with CF typ from to input gas used out e _ jps value lg => CF typ from to input gas used out e c jps value lg end.
 
 Section Flat.
   Variable include_pre : bool.
@@ -281,7 +315,7 @@ Section Flat.
   Definition is_dropped (started : bool) (c : cframe) : bool :=
     started &&
     match c with
-    | CF typ _ (Some to) _ _ _ _ _ _ _ _ => ((typ =? op_call) || (typ =? op_staticcall)) && is_precompile to
+    | CF typ _ (Some to) _ _ _ _ _ _ _ _ _ => ((typ =? op_call) || (typ =? op_staticcall)) && is_precompile to
     | _ => false
     end.
   Definition drop_last (started : bool) (calls : list cframe) : list cframe :=
@@ -315,6 +349,7 @@ Section Flat.
       | Ok s' => if include_pre then Ok s' else flat_fixup s'
       | Err x => Err x | Panic x => Panic x
       end
+    | TLog _ _ _ | TClearLogs => Ok s          (* the wrapped callTracer is created without withLog *)
     | _ => ct_step false s e
     end.
   Fixpoint ctf_run (s : tstate) (es : list tev) : res tstate :=
@@ -370,7 +405,7 @@ Section Flatten.
 
   Definition flat_self (f : cframe) (addr : list nat) : flat :=
     match f with
-    | CF typ from to input gas used out err calls jps value =>
+    | CF typ from to input gas used out err calls jps value _ =>
       let suicide := typ =? op_selfdestruct in
       let create := (typ =? op_create) || (typ =? op_create2) in
       let has := keeps_result err && negb suicide in
@@ -387,7 +422,7 @@ Section Flatten.
          fl_err := conv err; fl_gas := gas; fl_input := input; fl_value := Some value;
          fl_has_result := has; fl_used := if has then used else 0; fl_output := if has then out else [] |}
     end.
-  Definition cf_typ (f : cframe) : N := match f with CF typ _ _ _ _ _ _ _ _ _ _ => typ end.
+  Definition cf_typ (f : cframe) : N := match f with CF typ _ _ _ _ _ _ _ _ _ _ _ => typ end.
   Definition pre_a (a : aframe) : bool := is_pre_jp (af_jp a).
 
   (** flatFromNested / flatAspectNested; [None] = "unrecognized call frame type" (or the model's fuel ran out).
